@@ -12,11 +12,18 @@ from ural.patterns import QUERY_VALUE_IN_URL_TEMPLATE, CONTROL_CHARS_RE, ASCII
 from ural.utils import unquote, urljoin, urlsplit
 from ural.quote import unquote_letters
 
+# NOTE: the underscore can come escaped ("redirect%5Fto")
+OBVIOUS_REDIRECT_KEYS = (
+    r"redirect(?:(?:_|%5F)to)?|target|redir|next|link|orig|goto|url|[lu]"
+)
+# NOTE: ascii letters only ("lin\u212a", with a kelvin sign, is not "link")
 OBVIOUS_REDIRECTS_RE = re.compile(
-    QUERY_VALUE_IN_URL_TEMPLATE
-    # NOTE: the underscore can come escaped ("redirect%5Fto")
-    % r"(?:redirect(?:(?:_|%5F)to)?|target|redir|next|link|orig|goto|url|[luq])",
-    # NOTE: ascii letters only ("lin\u212a", with a kelvin sign, is not "link")
+    QUERY_VALUE_IN_URL_TEMPLATE % (r"(?:%s|q)" % OBVIOUS_REDIRECT_KEYS),
+    re.I | ASCII,
+)
+# NOTE: "q" is a hint on google and youtube only, elsewhere it is a search
+OBVIOUS_REDIRECTS_BUT_Q_RE = re.compile(
+    QUERY_VALUE_IN_URL_TEMPLATE % (r"(?:%s)" % OBVIOUS_REDIRECT_KEYS),
     re.I | ASCII,
 )
 # NOTE: a host can come with a port, and is case-insensitive
@@ -53,16 +60,17 @@ def infer_one_redirection(url):
         # NOTE: a key can be written with escaped letters ("%75rl" is "url")
         searched = unquote_letters(url.split("#", 1)[0])
 
-        obvious_redirect_match = re.search(OBVIOUS_REDIRECTS_RE, searched)
+        # NOTE: an ordinary "q" item is no hint, and does not hide the ones that
+        # come after it ("?q=x&url=..." is "?url=...&q=x")
+        # NOTE: the keys are matched whatever their case, "Q" is "q"
+        # NOTE: "q" need not be the first item of the query
+        # NOTE: nor can the text of a fragment make it a google or youtube one
+        if GOOGLE_URL_RE.search(searched) or "/redirect" in searched:
+            obvious_redirect_match = OBVIOUS_REDIRECTS_RE.search(searched)
+        else:
+            obvious_redirect_match = OBVIOUS_REDIRECTS_BUT_Q_RE.search(searched)
 
         if obvious_redirect_match is not None:
-            # NOTE: the keys are matched whatever their case, "Q" is "q"
-            if obvious_redirect_match.group(1).lower() == "q":
-                # NOTE: "q" need not be the first item of the query
-                # NOTE: nor can the text of a fragment make it a google or youtube one
-                if not GOOGLE_URL_RE.search(searched) and "/redirect" not in searched:
-                    return url
-
             potential_target = unquote(obvious_redirect_match.group(2))
 
             # Basic HTTPS
